@@ -215,7 +215,7 @@ func insertMethod(class, super slip.Class, method *slip.Method, combo *slip.Comb
 		pos++
 	}
 	for _, f := range class.InheritsList() {
-		if len(m.Combinations) <= pos || m.Combinations[pos].From == super {
+		if len(m.Combinations) <= pos || f == super {
 			break
 		}
 		if m.Combinations[pos].From == f {
